@@ -222,6 +222,17 @@ def run_one(m, spec_src):
         shutil.rmtree(d, ignore_errors=True)
 
 
+# ---- defect classes of the eighth round of seeded changes (modelled on the specification)
+mut("postreact_status_lost", "[] f.m \\in {M_PRE_UPDATE, M_UPDATE, M_POST_UPDATE, M_PRE_REACT, M_REACT, M_POST_REACT} ->\n                    IF f.s = NONE THEN s1 ELSE [s1 EXCEPT !.sub = Max(@, st.ts)]",
+    "[] f.m \\in {M_PRE_UPDATE, M_UPDATE, M_POST_UPDATE, M_PRE_REACT, M_REACT, M_POST_REACT} ->\n                    IF f.s = NONE \\/ f.m \\in {M_POST_REACT, M_POST_UPDATE} THEN s1 ELSE [s1 EXCEPT !.sub = Max(@, st.ts)]",
+    cfgs=["MC_injplan", "MC_plan_q", "MC_log"], note="a report made in postUpdate / postReact for another state does not reach the plan step")
+mut("outcome_keeps_high_reports", "      [] t = \"plan_clear\" ->\n            PlanCleared(Push(st, <<>>))",
+    "      [] t = \"plan_clear\" ->\n            [Push(st, <<>>) EXCEPT !.plan = <<>>, !.succ = @ \\ {0}, !.fail = @ \\ {0}]",
+    cfgs=["MC_plan_q", "MC_planman", "MC_injplan"], note="the end of a plan wipes the reports of state 0 only (reports of higher ids survive)")
+mut("own_phase_twice", "                cbs  == [i \\in 1 .. Len(ord) |-> Fr(\"cb\", f.m, f.s, ord[i], f.s)]",
+    "                ord2 == IF f.m = M_REACT /\\ Len(ord) >= 2 THEN [i \\in 1 .. Len(ord) |-> 0] ELSE ord\n                cbs  == [i \\in 1 .. Len(ord) |-> Fr(\"cb\", f.m, f.s, ord2[i], f.s)]",
+    cfgs=["MC_injplan", "MC_inj"], note="react(): the class's own callback runs once per injection, the injections' never")
+
 def main(argv):
     only = set(argv[argv.index("--only") + 1].split(",")) if "--only" in argv else None
     jobs = int(argv[argv.index("--jobs") + 1]) if "--jobs" in argv else 4
